@@ -79,6 +79,8 @@ JudgeDgram(e) ==
                   tag |-> "dgram-unknown-model"]
             [] c.cls = "valid" ->
                  [why |-> Cl(n = 1 \/ (e.cut /\ n = 0), "C07:exactly-one-callback-per-valid-broadcast")
+                          \* "listens" means hears: a bridge that holds the port and hands nothing over is not listening (C17)
+                          \o Cl(n >= 1 \/ e.cut, "C17:holds-the-port-but-does-not-hear")
                           \o Cl(rightOwner, "C07:delivered-to-the-listening-bridge")
                           \o (IF n >= 1 THEN FieldClauses(c.fam, e.b, e.delivered[1]) ELSE <<>>)
                           \o (IF e.burst THEN <<>> ELSE Cl(OnlyCallbackExc(e), "C07:valid-broadcast-raised")
